@@ -19,7 +19,8 @@
   State threaded through the recursion: `lastsegment`, `hasTitle`, `footnotes`.
   `str.strip()` = `pyStrip` (Python's `str.isspace` set).  `int()` on ASCII digit strings only; `float()` (margin-left) on
   `digits[.digits]` only — other spellings give `Err.unmodelled`; style:text-position other than ''/sub/super: unmodelled.
-  text_note is modelled for the shape [text:note-citation [text …], text:note-body [first, …]] (direct children, in this order).
+  text_note is modelled for the shape [text:note-citation […], text:note-body […]] (direct children, in this order): the label is
+  the text of the citation's text children, the whole body goes through textToString.
 -/
 import OdfModel.Xhtml
 namespace OdfModel.Moin
@@ -259,7 +260,7 @@ structure MSt where
 
 /-- inline_markup(node), given textToString(node) -/
 def inlineMarkup (sty : Styles) (attrs : Attrs) (text : Str) : Str :=
-  if (pyStrip text).isEmpty then []
+  if (pyStrip text).isEmpty then text        -- "don't apply styles to white space": the text is returned as it is
   else
     let style := (sty.text.lookup (getAttr attrs kStyleName)).getD {}
     if style.fixed then [96] ++ text ++ [96]
@@ -322,6 +323,8 @@ def nodeStr (sty : Styles) (st : MSt) : Node → M (Str × MSt)
       | .ok (t, st1) => paraPost sty q attrs (inlineMarkup sty attrs t) st1
     else if q = tList then
       itemsStr sty ((sty.list.lookup (getAttr attrs kStyleName)).getD false) 0 { st with last := some q } kids
+    else if q = tTable then rowsStr sty { st with last := some q } kids
+    else if q = tSection then kidsStr sty st kids
     else
       match moinMethod q with
       | none => .ok (sUnknownOpen ++ q ++ sUnknownClose, st)
@@ -339,15 +342,10 @@ def nodeStr (sty : Styles) (st : MSt) : Node → M (Str × MSt)
         match kids with
         | .elem qc _ ck :: .elem qb _ bk :: _ =>
           if qc = tCitation && qb = tNoteBody then
-            match ck, bk with
-            | [], _ => .error .indexError
-            | _, [] => .error .indexError
-            | .text cite :: _, .elem _ _ bkk :: _ =>
-              match kidsStr sty st bkk with
-              | .error e => .error e
-              | .ok (t, st1) => .ok ([94] ++ cite ++ [94], { st1 with foot := st1.foot ++ [(cite, t)] })
-            | .text cite :: _, .text _ :: _ => .ok ([94] ++ cite ++ [94], { st with foot := st.foot ++ [(cite, [])] })
-            | .elem .. :: _, _ => .error .unmodelled
+            let cite := (ck.map (fun c => match c with | .text v => v | .elem .. => [])).flatten
+            match kidsStr sty st bk with
+            | .error e => .error e
+            | .ok (t, st1) => .ok ([94] ++ cite ++ [94], { st1 with foot := st1.foot ++ [(cite, t)] })
           else .error .unmodelled
         | _ => .error .unmodelled
 /-- textToString(element) over element.childNodes -/
@@ -394,8 +392,6 @@ def subitemsStr (sty : Styles) (indent : Nat) (st : MSt) : List Node → M (Str 
           | .error e => .error e
           | .ok (u, st3) => .ok (t2 ++ u, st3)
     else subitemsStr sty indent st rest
-end
-
 /-- the loop over the cells of a row -/
 def cellsStr (sty : Styles) (st : MSt) : List Node → M (Str × MSt)
   | [] => .ok ([], st)
@@ -408,7 +404,6 @@ def cellsStr (sty : Styles) (st : MSt) : List Node → M (Str × MSt)
       | .error e => .error e
       | .ok (u, st2) => .ok (inlineMarkup sty attrs t ++ sCellEnd ++ u, st2)
 
-mutual
 /-- tableToString: one child of the table (header rows recurse; other children are skipped) -/
 def rowStr (sty : Styles) (st : MSt) : Node → M (Str × MSt)
   | .text _ => .error .attributeError
